@@ -115,6 +115,39 @@ def glue_cases(ctx, n):
     return out
 
 
+def sized_cases(ctx):
+    """a COMPLETE definition of exactly T tokens (T around the sizes at which a runtime might batch, buffer or wrap: powers of two and round
+    decimals) followed by something that is no part of it; and a lexeme whose conversion fails (an integer literal beyond the digit limit)
+    dropped between the tokens of a definition: a token that cannot be built is an error, not white space"""
+    rng = ctx.rng
+    out = []
+    junk = [" @", " ;", " = ", ' def b { return "y" weighted 1 }', " .", ' "tail"', " 7", " }"]
+    sizes = [32, 64, 128, 256, 512, 1024, 2048, 4096, 8192, 100, 1000, 10000] if ctx.tier == "thorough" else [64, 256, 1024, 4096, 8192, 1000]
+    for t in sizes:
+        # def e { return G , G , ... }  = 4 + 4*g - 1 + 1 tokens ( "x" weighted n , )  -> 4g + 4 ; with a salt 3 more
+        for salt in (False, True):
+            base = 4 + (3 if salt else 0)
+            if (t - base) % 4 != 0 or t - base <= 0:
+                continue
+            g = (t - base) // 4
+            groups = ", ".join('"g%d" weighted %d' % (i, 1 + i % 3) for i in range(g))
+            text = "def e { %sreturn %s }" % ('salt: "s" ' if salt else "", groups)
+            ntok = len(recogniser.tokenize(text))
+            if ntok != t:
+                continue
+            for j in rng.sample(junk, 3):
+                out.append(("exact-%d-tokens+junk" % t, text + j))
+            out.append(("exact-%d-tokens+junk" % t, text[:-1] + "@ }"))
+    big = "7" * 4400
+    base = 'def e { splitters: u if x == 1 { return "a" weighted 1, "b" weighted 3 } else { return "c" weighted 1 } }'
+    for where in ("{ ", " return", " weighted 1,", " }", "def ", "== 1", "else "):
+        i = base.index(where)
+        out.append(("unconvertible-lexeme", base[:i] + " " + big + " " + base[i:]))
+    out.append(("unconvertible-lexeme", base + " " + big))
+    out.append(("unconvertible-lexeme", big + " " + base))
+    return out
+
+
 def impl_compile(text):
     from pyab_experiment.experiment_evaluator import ExperimentEvaluator
     from pyab_experiment.utils.wraper_functions import parse_source
@@ -179,6 +212,7 @@ def run(ctx):
                          "operator, double mutation) of generated experiments, de-duplicated by text, classified by an "
                          "independent recogniser of the documented grammar; every mutant counts as non-trivial")
     ctx.extra["table_obligations"] = 3
+    run_stream(ctx, sized_cases(ctx), with_model=False)
     run_stream(ctx, [("near-miss", t) for t in NEAR_MISSES] + glue_cases(ctx, max(300, n // 8)) + make_cases(ctx, n))
 
 
